@@ -158,4 +158,27 @@ CLAIMS = {
     design_ref="DESIGN.md §3 C13",
     note=_corr + "conditioning/rounding not modelled; pivots-exist and Dual->ring refinement not proved (partial).",
     technique="Lean 4 + Mathlib proof (loop invariants over folds, Finset sums, ring algebra) + differential correspondence"),
+ "C14": dict(
+    text="Lean 4 + Mathlib theorems over ℝ for EVERY order K >= 1 and EVERY non-decreasing knot list with K-fold end knots "
+         "(any interior multiplicity): the model's bsplev (support short-circuit, right-end-point rule with org_k, half-open "
+         "order-1 indicator, zero-width guards) equals the pure Cox-de Boor recursion strictly before the last knot "
+         "(C14_is_cox_de_boor), is 1/0 at the right end point (C14_right_end), is non-negative (C14_nonneg), vanishes outside "
+         "its k spans (C14_support), and the n basis functions sum to one everywhere in the domain incl. interior knots and "
+         "the right end point (C14_partition_of_unity, by the telescoping induction on the order); derivative orders m >= k "
+         "vanish and m = 0 is the value (C14_deriv_high, C14_deriv_zero). PARTIAL: bspldnev = one-sided derivative of the "
+         "piecewise polynomial for 0 < m < k is covered by correspondence (all m, all knots/end points) only.",
+    design_ref="DESIGN.md §3 C14",
+    note=_corr + "derivative identification for 0 < m < k not proved (partial); f64 rounding modelled.",
+    technique="Lean 4 + Mathlib proof (induction on the order, Finset telescoping) + differential correspondence + model-free oracle"),
+ "C15": dict(
+    text="Lean 4 + Mathlib theorems: over any field, after csolve the spline satisfies every collocation condition - value "
+         "at interior sites, left_n/right_n-th derivative at the two end sites - whenever the elimination meets no zero "
+         "pivot (C15_collocation, from the C13 soundness theorem and fdsolve21 = dsolve21 over fields); site-count errors "
+         "(C15_len_errors), unsolved-evaluation error (C15_unsolved_error), coefficient shape (C15_csolve_shape). PARTIAL: "
+         "polynomial reproduction, data sensitivity = unit-data spline, dual-abscissa chain rule: correspondence (coefficients, "
+         "values, derivatives, gradients by name, all spline x abscissa type pairings) and a model-free oracle (polynomial "
+         "data of degree < k reproduced with all derivatives).",
+    design_ref="DESIGN.md §3 C15",
+    note=_corr + "Schoenberg-Whitney non-singularity is a hypothesis (PivotsGood); Marsden/reproduction not proved (partial).",
+    technique="Lean 4 + Mathlib proof (composition of C13 soundness with the collocation matrix) + differential correspondence + model-free oracle"),
 }
